@@ -140,7 +140,20 @@ def doc_strategy():
         # small pop-on documents: well-formed, or rejected part-way (a time code that lost a
         # digit on a later line, a row of 40 characters, a cue shown for one frame)
         from ..ref import cea608 as R608
-        kind = draw(st.sampled_from(["ok", "ok", "badtime", "long", "flash", "rollup", "cr-only", "cr-only"]))
+        kind = draw(st.sampled_from(["ok", "ok", "badtime", "long", "flash", "rollup", "cr-only", "cr-only",
+                                     "single-paint", "single-paint", "single-pop"]))
+        if kind in ("single-paint", "single-pop"):
+            # every command sent once (no doubling); the document may end with a mode command
+            # that is also the first word of another document of this family
+            word = draw(st.sampled_from(["Left over", "Good morning", "abc"]))
+            sec = draw(st.integers(1, 9))
+            pac_ = R608.pac(draw(st.integers(1, 15)), 0)
+            chars = " ".join(R608.char_words(word))
+            first = f"9429 {pac_} {chars}" if kind == "single-paint" else f"9420 {pac_} {chars} 942f"
+            tail = draw(st.sampled_from(["", " 9429", " 9429", " 9420"]))
+            return {"op": "add_doc", "fmt": "scc",
+                    "doc": "\n".join(["Scenarist_SCC V1.0", "", f"00:00:{sec:02d}:00\t{first}", "",
+                                       f"00:00:{sec + 3:02d}:00\t942c{tail}", ""])}
         if kind in ("rollup", "cr-only"):
             # roll-up rows: with their RUx command, or a segment cut out of such a stream (rows
             # flushed by carriage returns only)
